@@ -217,7 +217,7 @@ def run(shard, rec):
         opsset = sorted({s[0] for s in spec['steps']})
         if res is None:
             rec.violation(f'{what}: run did not complete: {w.status} {[r for r in w.results() if r[0] == "EXC"][:1]} {w.error_summaries()[:1]}',
-                          {'mechanism': 'no-completion', 'divisor_negative': False, 'deferred_bump': bool(w.deferred_bumps), 'timing_skew': progs.timing_skew(spec),
+                          {'mechanism': 'no-completion', 'divisor_negative': False, 'deferred_bump': bool(w.deferred_bumps), 'timing_skew': progs.timing_skew(spec) and no_prss,
                            'label_disagreement': any('multisets differ' in p_ for p_ in w.wire_check())}, wit, case=case)
             continue
         for pid, r in enumerate(res):
